@@ -114,10 +114,29 @@ def removeFirst {α} (p : α → Bool) : List α → List α
   | [] => []
   | x :: xs => if p x then xs else x :: removeFirst p xs
 
-/-- `ack_packet`: remove the first entry with this id, compact. -/
-def ackPacket (o : Outbound) (id : Nat) : Outbound × Bool :=
-  if o.retained.any (fun e => e.id == id) then
-    (compact { o with retained := removeFirst (fun e => e.id == id) o.retained }, true)
+/-- Kinds of acknowledgement: which fixed header byte of a retained packet each one completes. -/
+inductive AckKind where
+  | subAck | unsubAck | pubAck | pubRec
+  deriving DecidableEq, Repr, Inhabited
+
+def AckKind.acknowledges (k : AckKind) (header : Nat) : Bool :=
+  match k with
+  | .subAck => header / 16 == 8
+  | .unsubAck => header / 16 == 10
+  | .pubAck => header / 16 == 3 && header / 2 % 4 == 1
+  | .pubRec => header / 16 == 3 && header / 2 % 4 == 2
+
+def headerAt (o : Outbound) (off : Nat) : Nat :=
+  match o.buf[off]? with
+  | some x => x.toNat
+  | none => 0
+
+/-- `ack_packet`: remove the first entry with this id whose packet is of the acknowledged kind,
+then compact. -/
+def ackPacket (o : Outbound) (id : Nat) (k : AckKind) : Outbound × Bool :=
+  let p := fun (e : RetainedPacket) => e.id == id && k.acknowledges (o.headerAt e.offset)
+  if o.retained.any p then
+    (compact { o with retained := removeFirst p o.retained }, true)
   else (o, false)
 
 def hasRetained (o : Outbound) (id : Nat) : Bool := o.retained.any (fun e => e.id == id)
